@@ -18,6 +18,8 @@ use serde_json::{json, Value};
 use unicode_width::UnicodeWidthStr;
 
 include!("c12_parts/brackets.rs");
+include!("c12_parts/chains.rs");
+include!("c12_parts/resume.rs");
 
 // ------------------------------------------------------------------------------------------------
 // markers used while generating program text (stripped by `flatten`)
@@ -299,12 +301,15 @@ struct G {
     rng: Rng,
     n: usize,
     in_fn: bool,
+    /// a call of the chain may return (the error is caught inside): nothing that would fail on the
+    /// returned value may follow the call
+    calls_return: bool,
     stats: Vec<String>,
 }
 
 impl G {
     fn new(rng: Rng) -> G {
-        G { rng, n: 0, in_fn: false, stats: vec![] }
+        G { rng, n: 0, in_fn: false, calls_return: false, stats: vec![] }
     }
     fn uid(&mut self) -> usize {
         self.n += 1;
@@ -605,6 +610,11 @@ impl G {
 
     /// a single-line failing expression / statement, with lines that must precede it
     fn fault(&mut self) -> (Vec<String>, Expr) {
+        match self.rng.below(100) {
+            0..=17 => return self.chain_fault(),
+            18..=31 => return self.register_fault(),
+            _ => {}
+        }
         let k = self.rng.below(21);
         let n = self.uid();
         let z = format!("z{n}");
@@ -651,6 +661,25 @@ impl G {
         let e = format!("{M_CEND}{k}");
         let a = first_arg.map(|x| x.to_string()).unwrap_or_else(|| self.int().to_string());
         let b = self.int();
+        if self.rng.chance(1, 6) {
+            // the call is a node of a multi-line chain, on the line of the access it is attached to,
+            // with and without `?` checks around it and further (never evaluated) nodes after it
+            let cf = self.rng.below(5);
+            let chk = if self.rng.chance(1, 2) { "?" } else { "" };
+            let mut lines = match cf {
+                0 => vec![format!("id1({{go: {callee}}})"), format!("{c}{e}  .go({a}){chk}")],
+                1 => vec![format!("id1({{p: {{go: {callee}}}}})"), "  .p".to_string(), format!("{c}{e}  .go({a}, {b}){chk}")],
+                2 => vec![format!("id1({{p: [0, {callee}]}})"), format!("{c}{e}  .p[1]({a}){chk}")],
+                3 => vec![format!("id1({{go: {callee}}})"), format!("{c}{e}  .go?({a}){chk}")],
+                _ => vec![format!("id1({{p: {{'go': {callee}}}}}).p?"), format!("{c}{e}  .'go'({a}){chk}")],
+            };
+            let more = if self.calls_return { 0 } else { self.rng.below(3) };
+            for i in 0..more {
+                lines.push(format!("  .zz{i}{}", if self.rng.chance(1, 2) { "?" } else { "" }));
+            }
+            let kind = format!("callform=chain{cf}{}", if more == 0 { chk } else { "" });
+            return Expr { lines, atomic: false, stmt_only: false, is_call: true, kind };
+        }
         let kind = format!("callform={f}");
         let mk = |lines: Vec<String>, atomic: bool| Expr { lines, atomic, stmt_only: false, is_call: true, kind: kind.clone() };
         match f {
@@ -783,6 +812,12 @@ struct CallSite {
     in_try: bool,
     nat: Option<usize>,
     adp: Option<usize>,
+    /// `line` is not a call instruction on the stack but the instruction through which the
+    /// interpreter was entered again: the for loop / core-library consumer that resumes the callee
+    /// (a generator), or the core-library call that runs the callback holding the fault itself
+    /// (`adp`: through a lazy adaptor created there). An interpreter entry of its own sits between
+    /// the frames inside and this line
+    generator: bool,
 }
 
 #[derive(Clone, Debug)]
@@ -810,6 +845,7 @@ fn gen_planted(rng: &mut Rng, allow_try: bool) -> Planted {
     // site in function k (k == depth: the top-level call)
     let try_level: Option<usize> = if allow_try && g.rng.chance(1, 10) { Some(g.rng.below(depth + 1)) } else { None };
     g.stat(format!("try={}", try_level.is_some()));
+    g.calls_return = try_level.is_some();
     let s = M_STMT;
     let mut raw: Vec<String> = vec![format!("{s}id1 = |a| a"), format!("{s}id2 = |a, b| a")];
     raw.extend(g.fillers(0, 3, 0));
@@ -818,27 +854,71 @@ fn gen_planted(rng: &mut Rng, allow_try: bool) -> Planted {
     // key statement builder shared by the fault (level 0) and call sites (levels 1..=depth)
     let mut callee = String::new();
     let mut callee_is_map = false;
+    // the function of the previous level is a generator that produces this many values before its
+    // key statement runs
+    let mut callee_gen: Option<usize> = None;
+    let mut gen_consumer_at = vec![false; depth + 2];
     for level in 0..=depth {
         let top = level == depth;
         g.in_fn = !top;
         // the key statement of this level
         let in_try_here = try_level == Some(level);
-        let plain_only = try_level.is_some_and(|t| level > t);
+        let mut plain_only = try_level.is_some_and(|t| level > t);
+        // is the function of this level a generator? (its key statement then follows `yield`s)
+        let mut is_gen = !top && !typed_arg && g.rng.chance(1, 5);
+        // the key statement sits in a callback run by a core-library function
+        let native = try_level.is_none() && !(level == 0 && typed_arg) && g.rng.chance(1, 6);
+        if native {
+            is_gen = false;
+        }
         let (pre, expr) = if level == 0 {
             if typed_arg {
                 // the fault is the type check of f0's first parameter (reported in f0's header);
                 // the body of f0 is ordinary code
                 (vec![], Expr { lines: vec![format!("{s}{} = a", g.v())], atomic: false, stmt_only: true, is_call: false, kind: "fault=typed-arg".into() })
+            } else if native && g.rng.chance(1, 2) {
+                // the first instruction of the callback fails (its parameter `p` is a Number)
+                plain_only = plain_only || g.rng.chance(2, 3);
+                g.param_fault("p")
+            } else if is_gen && g.rng.chance(1, 2) {
+                // the first instruction after the resumption fails
+                plain_only = plain_only || g.rng.chance(2, 3);
+                g.register_fault()
+            } else if !top && !native && g.rng.chance(1, 8) {
+                // a failing operation on the function's parameter (a Number)
+                plain_only = plain_only || g.rng.chance(2, 3);
+                g.param_fault("a")
             } else {
                 g.fault()
             }
+        } else if let Some(yields) = callee_gen {
+            gen_consumer_at[level] = true;
+            (vec![], g.consumer(level, &callee, yields))
         } else {
             let first = if typed_arg && level == 1 { Some("'not a number'") } else { None };
             (vec![], g.call_expr(level, &callee, callee_is_map, first))
         };
         g.stat(expr.kind.clone());
         let mut key = pre;
-        let native = level >= 1 && try_level.is_none() && g.rng.chance(1, 6);
+        g.stat(format!("generator_level={is_gen}"));
+        let mut direct_after_yield = false;
+        let mut yields = 0;
+        if is_gen {
+            // `yield`s between the locals of the key statement and the key statement itself
+            yields = g.rng.weighted(&[1, 4, 3, 2]);
+            for i in 0..yields {
+                key.push(format!("{s}yield {}", g.int()));
+                direct_after_yield = true;
+                if i + 1 < yields || g.rng.chance(1, 4) {
+                    let fl = g.fillers(0, 1, 1);
+                    direct_after_yield = fl.is_empty();
+                    key.extend(fl);
+                }
+            }
+            g.stat(format!("generator_yields_before_key={yields}"));
+            let reg = expr.kind.starts_with("fault=reg") || matches!(expr.kind.as_str(), "fault=6" | "fault=14" | "fault=19");
+            g.stat(format!("generator_key={}", if level > 0 { "call" } else if reg { "register-fault" } else { "other-fault" }));
+        }
         if native {
             // the call is made from a callback run by a core-library function
             let was = g.in_fn;
@@ -897,6 +977,23 @@ fn gen_planted(rng: &mut Rng, allow_try: bool) -> Planted {
         let single_stmt_key = key.len() == 1;
         let nwrap = g.rng.weighted(&[5, 3, 1]);
         g.stat(format!("nwrap={nwrap}"));
+        if level == 0 {
+            // is the failing operation the first instruction of its statement (operands in registers,
+            // statement = the operation itself or a plain assignment of it)?
+            let ctx_plain = g.stats.iter().rev().find(|x| x.starts_with("ctx=")).is_some_and(|x| x == "ctx=stmt" || x.starts_with("ctx=plain") || x == "ctx=1");
+            let reg = expr.kind.starts_with("fault=reg") || expr.kind.starts_with("fault=param") || matches!(expr.kind.as_str(), "fault=6" | "fault=14" | "fault=19");
+            if reg && ctx_plain && nwrap == 0 {
+                if is_gen && direct_after_yield {
+                    g.stat("first_instruction=after-generator-resume");
+                } else if native && expr.kind.starts_with("fault=param") {
+                    g.stat("first_instruction=of-callback");
+                } else if !native && expr.kind.starts_with("fault=param") {
+                    g.stat("first_instruction=param-fault-in-function");
+                } else {
+                    g.stat("first_instruction=of-statement");
+                }
+            }
+        }
         for _ in 0..nwrap {
             key = g.wrap(key);
         }
@@ -915,7 +1012,7 @@ fn gen_planted(rng: &mut Rng, allow_try: bool) -> Planted {
             // function `level`
             let mut body = g.fillers(0, 3, 1);
             let typed_here = typed_arg && level == 0;
-            let one_liner = !typed_here && single_stmt_key && nwrap == 0 && !in_try_here && !key[0].contains(';') && g.rng.chance(1, 5);
+            let one_liner = !is_gen && !typed_here && single_stmt_key && nwrap == 0 && !in_try_here && !key[0].contains(';') && g.rng.chance(1, 5);
             let params = if typed_here {
                 let t = *g.rng.pick(&["Number", "Number?", "List", "Bool"]);
                 format!("{M_FAULT}a: {t}, b = 0")
@@ -924,9 +1021,14 @@ fn gen_planted(rng: &mut Rng, allow_try: bool) -> Planted {
             };
             body.extend(key.clone());
             body.extend(g.fillers(0, 2, 1));
-            if try_level.is_some() || g.rng.chance(1, 2) {
+            if is_gen {
+                if yields == 0 || g.rng.chance(1, 2) {
+                    body.push(format!("{s}yield {}", g.int()));
+                }
+            } else if try_level.is_some() || g.rng.chance(1, 2) {
                 body.push(format!("{s}{}", g.int()));
             }
+            callee_gen = if is_gen { Some(yields) } else { None };
             let map_form = g.rng.chance(1, 4);
             let name = format!("f{level}");
             if one_liner {
@@ -973,7 +1075,13 @@ fn gen_planted(rng: &mut Rng, allow_try: bool) -> Planted {
             in_try: try_level == Some(level),
             nat: f.nats[level],
             adp: f.adps[level],
+            generator: gen_consumer_at[level],
         });
+    }
+    if let Some(n) = f.nats[0] {
+        // the fault itself sits in a callback: an entry boundary without a call instruction
+        let fl = f.fault.expect("fault marker");
+        calls.push(CallSite { line: n, end: n.max(fl), in_try: false, nat: None, adp: f.adps[0], generator: true });
     }
     Planted {
         src: f.src.clone(),
@@ -1251,7 +1359,7 @@ impl Ctx {
         let mut fail: Option<(String, Value)> = None;
         let detail = |what: &str, extra: Value| -> Value {
             json!({"replay_kind": "planted", "program": src, "fault_line": p.fault_line,
-                   "calls": p.calls.iter().map(|c| json!([c.line, c.end, c.in_try, c.nat, c.adp])).collect::<Vec<_>>(),
+                   "calls": p.calls.iter().map(|c| json!([c.line, c.end, c.in_try, c.nat, c.adp, c.generator])).collect::<Vec<_>>(),
                    "fault_in_try": p.fault_in_try, "model": model, "what": what, "observed": extra})
         };
         let real_canon: String;
@@ -1288,6 +1396,14 @@ impl Ctx {
                     // span extents
                     let mut expect: Vec<(usize, usize)> = vec![(p.fault_line, p.fault_line)];
                     for c in p.calls.iter().rev() {
+                        if c.generator && c.nat.is_none() {
+                            // no call instruction: (the adaptor's line, then) the resuming instruction
+                            if let Some(a) = c.adp {
+                                expect.push((a, c.end.max(a)));
+                            }
+                            expect.push((c.line, c.end));
+                            continue;
+                        }
                         expect.push((c.line, c.end));
                         if let Some(a) = c.adp {
                             expect.push((a, c.end.max(a)));
@@ -1487,7 +1603,19 @@ impl Ctx {
                 self.rep.bump("mutation=none-applicable");
                 continue;
             };
-            self.rep.bump(&format!("mutation={kind}"));
+            let (kind, stats) = match kind.split_once('\t') {
+                Some((k, st)) => (k.to_string(), st.to_string()),
+                None => (kind, String::new()),
+            };
+            if kind.starts_with("bracket:") {
+                // the kinds of this family are counted by their parts (construct x bad token x place)
+                self.rep.bump("mutation=bracket");
+                for st in stats.split(' ').filter(|x| !x.is_empty()) {
+                    self.rep.bump(st);
+                }
+            } else {
+                self.rep.bump(&format!("mutation={kind}"));
+            }
             self.broken_case(&src, line, &kind, false);
         }
     }
@@ -1593,6 +1721,22 @@ fn mutate(rng: &mut Rng, p: &Planted) -> Option<(String, usize, String)> {
         s
     };
     let closers = [")", "]", "}"];
+    if rng.chance(3, 10) {
+        // a break inside a multi-line bracketed construct inserted where a statement may start
+        // (c12_parts/brackets.rs): the bad token on a line of its own or after the previous element
+        let (at, ind) = *rng.pick(&p.flat_stmts);
+        let b = gen_bracket_break(rng, at, 0);
+        let mut lines = p.lines.clone();
+        let pad = " ".repeat(ind);
+        for (i, l) in b.lines.iter().enumerate() {
+            lines.insert(at + i, format!("{pad}{l}"));
+        }
+        let mut kind = format!("bracket:{}", b.kind);
+        // statistics travel in the kind string after a tab (not part of the replayed name)
+        kind.push('\t');
+        kind.push_str(&b.stats.join(" "));
+        return Some((join(&lines, p.trailing), at + b.bad_rel, kind));
+    }
     for _ in 0..6 {
         let k = rng.below(11);
         let mut lines = p.lines.clone();
@@ -1719,7 +1863,9 @@ fn mutate(rng: &mut Rng, p: &Planted) -> Option<(String, usize, String)> {
 fn gen_debug(rng: &mut Rng) -> (String, Vec<usize>, Vec<String>) {
     let mut g = G::new(rng.fork());
     let s = M_STMT;
-    let mut raw: Vec<String> = vec![format!("{s}id1 = |a| a"), format!("{s}id2 = |a, b| a")];
+    // `a`: a local (top level) / a parameter (functions) for debug expressions that need no
+    // instruction of their own before the debug instruction
+    let mut raw: Vec<String> = vec![format!("{s}id1 = |a| a"), format!("{s}id2 = |a, b| a"), format!("{s}a = 7")];
     let mut order: Vec<usize> = vec![]; // debug ids in execution order
     let mut next_id = 0usize;
     let items = 1 + g.rng.below(5);
@@ -1729,9 +1875,12 @@ fn gen_debug(rng: &mut Rng) -> (String, Vec<usize>, Vec<String>) {
         let d = format!("{M_DEBUG}{}{}", id / 10, id % 10);
         let v = g.v();
         let (a, b) = (g.int(), g.int());
-        let k = g.rng.below(12);
+        let k = g.rng.below(16);
         g.stat(format!("debugform={k}"));
         let lines = match k {
+            12 | 13 => vec![format!("{s}{d}debug a")],
+            14 => vec![format!("{s}{d}{v} = debug a")],
+            15 => vec![format!("{s}{d}debug ("), "  a".into(), ")".into()],
             0 => vec![format!("{s}{d}debug {a}")],
             1 => vec![format!("{s}{d}debug {a} + {b}")],
             2 => vec![format!("{s}{d}{v} = debug {a} + {b}")],
@@ -1749,13 +1898,26 @@ fn gen_debug(rng: &mut Rng) -> (String, Vec<usize>, Vec<String>) {
     };
     for _ in 0..items {
         raw.extend(g.fillers(0, 3, 0));
-        if g.rng.chance(1, 3) {
-            // inside a function that is called later
+        if g.rng.chance(2, 5) {
+            // inside a function that is called later; the function may be a generator whose debug
+            // statements run right after it is resumed (the statement after a `yield`)
             let h = format!("d{}", g.uid());
+            let is_gen = g.rng.chance(1, 2);
+            g.stat(format!("debug_in_generator={is_gen}"));
             let mut body = g.fillers(0, 2, 1);
             let mut ids = vec![];
             for _ in 0..1 + g.rng.below(2) {
                 let (mut st, id) = dbg_stmt(&mut g, &mut next_id);
+                if is_gen {
+                    let mut y = vec![format!("{s}yield {}", g.int())];
+                    let direct = !g.rng.chance(1, 4);
+                    if !direct {
+                        y.extend(g.fillers(1, 1, 1));
+                    }
+                    g.stat(format!("debug_directly_after_yield={direct}"));
+                    y.extend(st);
+                    st = y;
+                }
                 if g.rng.chance(1, 3) {
                     st = g.wrap(st);
                 }
@@ -1763,13 +1925,30 @@ fn gen_debug(rng: &mut Rng) -> (String, Vec<usize>, Vec<String>) {
                 ids.push(id);
                 body.extend(g.fillers(0, 1, 1));
             }
-            body.push(format!("{s}0"));
+            body.push(if is_gen { format!("{s}yield 0") } else { format!("{s}0") });
             raw.push(format!("{s}{h} = |a = 0|"));
             raw.extend(indent(body, 2));
             raw.extend(g.fillers(0, 2, 0));
             let calls = 1 + g.rng.below(2);
             for _ in 0..calls {
-                raw.push(format!("{s}{h}()"));
+                if is_gen {
+                    // consumed completely: every debug statement runs once, in order
+                    let (v, q) = (g.v(), format!("q{}", g.uid()));
+                    let arg = if g.rng.chance(1, 2) { g.int().to_string() } else { String::new() };
+                    let f = g.rng.below(5);
+                    g.stat(format!("debug_generator_consumer={f}"));
+                    match f {
+                        0 => raw.push(format!("{s}{v} = {h}({arg}).to_tuple()")),
+                        1 => raw.extend([format!("{s}for {q} in {h}({arg})"), format!("  {v} = {q}")]),
+                        2 => raw.push(format!("{s}{v} = {h}({arg}).count()")),
+                        3 => raw.extend([format!("{s}{v} = {h}({arg})"), "  .each |p| p".to_string(), "  .to_list()".to_string()]),
+                        _ => {
+                            raw.extend([format!("{s}{q} = {h}({arg})"), format!("{s}while {q}.next()"), format!("  {v} = 1")]);
+                        }
+                    }
+                } else {
+                    raw.push(format!("{s}{h}()"));
+                }
                 order.extend(ids.iter().copied());
             }
         } else {
@@ -2009,6 +2188,7 @@ fn parse_calls(v: &Value) -> Vec<CallSite> {
                     in_try: c[2].as_bool().unwrap_or(false),
                     nat: c.get(3).and_then(|x| x.as_u64()).map(|x| x as usize),
                     adp: c.get(4).and_then(|x| x.as_u64()).map(|x| x as usize),
+                    generator: c.get(5).and_then(|x| x.as_bool()).unwrap_or(false),
                 })
                 .collect()
         })
@@ -2018,7 +2198,7 @@ fn parse_calls(v: &Value) -> Vec<CallSite> {
 /// the model request for a planted-fault program: `trace …` (one interpreter entry, Trace.predict)
 /// or, when callbacks run by core-library functions are involved, `segs …` (Trace.predictSegs)
 fn planted_request(p: &Planted) -> String {
-    if p.calls.iter().all(|c| c.nat.is_none()) {
+    if p.calls.iter().all(|c| c.nat.is_none() && !c.generator) {
         let mut req = format!("trace {} {}", p.fault_line, p.fault_in_try as u8);
         for c in &p.calls {
             req.push_str(&format!(" {}:0:{}", c.line, c.in_try as u8));
@@ -2030,7 +2210,18 @@ fn planted_request(p: &Planted) -> String {
     let mut fail = (p.fault_line, p.fault_in_try as u8, None::<usize>);
     let mut cur: Vec<String> = vec![]; // innermost first while collecting
     for c in p.calls.iter().rev() {
-        cur.push(format!("{}:0:{}", c.line, c.in_try as u8));
+        if c.generator {
+            // the frames collected inside the generator's own interpreter, then the instruction that
+            // resumed it fails in the enclosing entry
+            cur.reverse();
+            segs.push(format!("{} {} {} {}", fail.0, fail.1, fail.2.map(|a| a.to_string()).unwrap_or("-".into()), cur.join(" ")));
+            cur = vec![];
+            // (`adp` without `nat`: the fault's own callback belongs to a lazy adaptor; with `nat` the
+            // adaptor belongs to the callback that holds this consumer, handled below)
+            fail = (c.line, c.in_try as u8, if c.nat.is_none() { c.adp } else { None });
+        } else {
+            cur.push(format!("{}:0:{}", c.line, c.in_try as u8));
+        }
         if let Some(n) = c.nat {
             cur.reverse();
             segs.push(format!("{} {} {} {}", fail.0, fail.1, fail.2.map(|a| a.to_string()).unwrap_or("-".into()), cur.join(" ")));
@@ -2079,6 +2270,15 @@ fn run_recorded(cx: &mut Ctx, d: &Value, quiet: bool) -> Option<String> {
         "module" => {
             let frames: Vec<(usize, usize)> = d["frames"].as_array().map(|a| a.iter().map(|f| (f[0].as_u64().unwrap() as usize, f[1].as_u64().unwrap() as usize)).collect()).unwrap_or_default();
             cx.module_case(d["module"].as_str().unwrap_or(""), src, &frames, quiet)
+        }
+        "chainmap" => {
+            let nodes: Vec<(String, usize, usize, usize)> = d["nodes"]
+                .as_array()
+                .map(|a| a.iter().map(|n| (n[0].as_str().unwrap_or("").to_string(), n[1].as_u64().unwrap() as usize, n[2].as_u64().unwrap() as usize, n[3].as_u64().unwrap() as usize)).collect())
+                .unwrap_or_default();
+            let u = |k: &str| d[k].as_u64().unwrap_or(0) as usize;
+            let root = (d["root"][0].as_u64().unwrap_or(0) as usize, d["root"][1].as_u64().unwrap_or(0) as usize);
+            cx.chainmap_case(src, u("first_line"), u("indent"), u("c0"), root, &nodes, quiet)
         }
         "broken" => cx.broken_case(src, d["expected_line"].as_u64().unwrap_or(0) as usize, d["mutation"].as_str().unwrap_or("?"), quiet),
         "debug" => {
@@ -2235,6 +2435,7 @@ fn main() {
     let mut rng = Rng::new(args.seed);
     let t = args.thorough();
     let (n_map, n_exc, n_pl, n_br, n_dbg, n_mod) = if t { (40000, 40000, 60000, 40000, 12000, 6000) } else { (3000, 3000, 4000, 3000, 1000, 400) };
+    let n_chain = if t { 20000 } else { 1500 };
     let mut r1 = rng.fork();
     cx.srcmap(&mut r1, n_map);
     let mut r2 = rng.fork();
@@ -2247,6 +2448,8 @@ fn main() {
     cx.debug(&mut r5, n_dbg);
     let mut r6 = rng.fork();
     cx.modules(&mut r6, n_mod);
+    let mut r7 = rng.fork();
+    cx.chainmaps(&mut r7, n_chain);
 
     cx.rep.note("mutation pilot (2026-09-26, scratch copy of /repo outside /repo and /verif, quick tier, seed 1; see requests/C12.md): get_source_span `<` for `<=` -> K:C12:SrcMap.lookup + C12:trace-lines; trace pushed outermost first -> C12:trace-lines; pop_span dropped at each of 11 sites of compiler.rs (nested fn args, assign target, type hints, catch arg/block, map entry, match arm, for iterable) -> C12:trace-lines each; debug prefix from span.end -> C12:debug-prefix; excerpt underline off by one -> K:C12:Excerpt.render; DebugInfo::push merging on equal start only -> K:C12:SrcMap.lookup; unchanged copy -> exit 0");
     let kh = cx.known_hits.clone();
